@@ -8,7 +8,7 @@
     configurations every run (harness e2e). *)
 From FV Require Import Base.Serial Frame.SessionSplit Link.Receiver Proofs.SessionSplitProofs Proofs.ReceiverProofs Proofs.EndToEnd Proofs.Stream.
 From Coq Require Import List.
-From FV Require Import Base.Bytes Codec.Value Codec.Composite Codec.CompositeSpec Frame.Transfer Frame.AmqpFrame Frame.TransferWire Proofs.FrameProofs Proofs.TransferWireProofs Link.FromWire Proofs.FromWireProofs.
+From FV Require Import Base.Bytes Codec.Value Codec.Composite Codec.CompositeSpec Frame.Transfer Frame.AmqpFrame Frame.TransferWire Proofs.FrameProofs Proofs.TransferWireProofs Link.FromWire Proofs.FromWireProofs Codec.Message Proofs.MessageProofs.
 Import ListNotations.
 Open Scope N_scope.
 
@@ -138,3 +138,20 @@ Theorem C01_wire_to_delivery_single_frame :
         r_credit (fst (rstep s (EXfer x))) = r_credit s - 1 /\ r_dc (fst (rstep s (EXfer x))) = wadd (r_dc s) 1.
 Proof. exact wire_to_delivery_single. Qed.
 Print Assumptions C01_wire_to_delivery_single_frame.
+
+(** ** the last link of the chain: the payload handed over is decoded to the message that was encoded
+
+    [enc_message] / [dec_message] (Codec/Message.v) model the message serializer and the visitor of
+    the message deserializer at the level of sections (header, delivery- and message-annotations,
+    properties, application-properties, body, footer), with data / amqp-sequence batches read as
+    TransparentVecAccess does.  For every message whose optional sections are any well-formed
+    sections of the right kind and whose body is one amqp-value section, or one or more data
+    sections, or one or more amqp-sequence sections: decoding the serializer's bytes gives back
+    exactly these sections.  (The empty body is written as an amqp-value null and reads back as
+    that: known finding c03-typed-roundtrip-message-body-empty, witnessed in the example.) *)
+Theorem C01_message_sections_intact :
+  forall m fuel b,
+    msg_ok m = true -> Forall (fun v => (depth v <= fuel)%nat) (sections_of m) ->
+    enc_message m = Some b -> dec_message fuel b = Ok m.
+Proof. exact message_roundtrip. Qed.
+Print Assumptions C01_message_sections_intact.
